@@ -15,6 +15,10 @@ from concurrent.futures import ThreadPoolExecutor
 VERIF = os.path.dirname(os.path.dirname(os.path.abspath(__file__)))
 REPO = os.environ.get("VERIF_REPO", "/repo")
 BUILD = os.path.join(VERIF, ".build")
+if REPO != "/repo":
+    # runs against a scratch copy never share binaries, run directories or evidence with runs against /repo
+    import hashlib
+    BUILD = os.path.join(BUILD, "scratch-" + hashlib.md5(os.path.realpath(REPO).encode()).hexdigest()[:10])
 HARNESS = os.path.join(VERIF, "harness")
 NCPU = os.cpu_count() or 4
 
